@@ -5,6 +5,7 @@
 //!     <tag> <arg> ... | <observed> ...
 mod util;
 mod c20;
+mod c02;
 
 use std::io::Write;
 
@@ -24,6 +25,7 @@ fn main() {
     let mut out = util::Out::new();
     match prop {
         "C20" => c20::run(&mut out, tier, seed, corpus.as_deref()),
+        "C02" => c02::run(&mut out, tier, seed, corpus.as_deref()),
         _ => {
             eprintln!("unknown property {prop}");
             std::process::exit(2);
